@@ -843,8 +843,97 @@ pub mod c20_live {
         }
     }
 
+    // ------------------------------------------------------------------ c20.ctor
+    //   c20.ctor <mpc|shard> <dh:0|1> <tls:none|some> <pre|self> <hdr>
+    //     a server built by the REAL constructor (`IpaHttpServer::new_mpc` / `new_shards`, never the struct
+    //     literal) from `ServerConfig { disable_https: dh, tls, .. }` -- all four combinations, including the
+    //     two no launcher produces: (0, none) asks for HTTPS without key material, (1, some) carries key
+    //     material it must not use -- and started through `start_on`.
+    //   -> no-start (start_on panicked) | plain=<r> tls=<r> cert=<r>: the step route of the server's flavor asked
+    //      by a plain-HTTP client with <hdr> / a TLS client without certificate with <hdr> / a TLS client with
+    //      the certificate of peer 1 and no header; <r> = ok | 401 | other:<s> | conn-err
+    async fn probe(uri: String, tls: bool, cert: &str, hdr: &str) -> String {
+        let (b, ct) = super::c20::body_of("junk");
+        let mut rb = Request::builder().method("POST").uri(uri);
+        if let Some(ct) = ct {
+            rb = rb.header("content-type", ct);
+        }
+        match hdr.split_once('=') {
+            None => assert!(hdr == "none", "harness: header token"),
+            Some(("h", v)) => rb = rb.header(Helper::identity_header(), v),
+            Some(("s", v)) => rb = rb.header(Shard::identity_header(), v),
+            Some(_) => panic!("harness: header token"),
+        }
+        let r = tokio::time::timeout(std::time::Duration::from_secs(5), client(tls, cert).request(rb.body(b).unwrap())).await;
+        match r {
+            Err(_) | Ok(Err(_)) => "conn-err".into(),
+            Ok(Ok(resp)) => match resp.status().as_u16() {
+                401 => "401".into(),
+                200..=299 => "ok".into(),
+                s => format!("other:{s}"),
+            },
+        }
+    }
+
+    async fn ctor_ask<F: ConnectionFlavor>(server: IpaHttpServer<F>, t: &[String]) -> String {
+        use futures::FutureExt;
+        let listener = match t[4].as_str() {
+            "pre" => Some(TcpListener::bind("127.0.0.1:0").unwrap()),
+            "self" => None,
+            b => panic!("harness: unknown bind mode {b}"),
+        };
+        let rt = IpaRuntime::current();
+        let started = std::panic::AssertUnwindSafe(server.start_on(&rt, listener, ())).catch_unwind().await;
+        let Ok((addr, handle)) = started else {
+            return "no-start".into();
+        };
+        let path = "/query/0/step/a";
+        let plain = probe(format!("http://127.0.0.1:{}{path}", addr.port()), false, "none", &t[5]).await;
+        let tls = probe(format!("https://localhost:{}{path}", addr.port()), true, "none", &t[5]).await;
+        let cert = probe(format!("https://localhost:{}{path}", addr.port()), true, "1", "none").await;
+        handle.abort();
+        format!("plain={plain} tls={tls} cert={cert}")
+    }
+
+    async fn run_ctor(t: Vec<String>) -> String {
+        let dh = match t[2].as_str() { "1" => true, "0" => false, d => panic!("harness: dh token {d}") };
+        let with_tls = match t[3].as_str() { "some" => true, "none" => false, d => panic!("harness: tls token {d}") };
+        // the configuration under test; key material and hpke keys are those of the https test server
+        let cfg = |base: &ServerConfig| ServerConfig {
+            port: None,
+            disable_https: dh,
+            tls: if with_tls { Some(base.tls.clone().expect("harness: the https test server has key material")) } else { None },
+            hpke_config: base.hpke_config.clone(),
+        };
+        match t[1].as_str() {
+            "mpc" => {
+                let ts = TestServerBuilder::<Helper>::default().with_request_handler(super::c20::ok_handler()).build().await;
+                let nc = &ts.server.network_config;
+                let peers = nc.peers.iter().zip([Some(0), Some(1), None]).map(|(p, c)| with_cert(p, c)).collect();
+                let network = NetworkConfig::<Helper>::new_mpc(peers, nc.client.clone());
+                let server = IpaHttpServer::<Helper>::new_mpc(Arc::clone(&ts.transport), cfg(&ts.server.config), network);
+                ctor_ask(server, &t).await
+            }
+            "shard" => {
+                let ts = TestServerBuilder::<Shard>::default().with_request_handler(super::c20::ok_handler()).build().await;
+                let nc = &ts.server.network_config;
+                let p0 = &nc.peers[0];
+                let peers = (0..2).map(|i| with_cert(p0, Some(i))).collect();
+                let network = NetworkConfig::<Shard>::new_shards(peers, nc.client.clone());
+                let server = IpaHttpServer::<Shard>::new_shards(Arc::clone(&ts.transport), cfg(&ts.server.config), network);
+                ctor_ask(server, &t).await
+            }
+            s => panic!("harness: unknown server {s}"),
+        }
+    }
+
+
     pub fn exec(req: &str) -> String {
         let t: Vec<String> = req.split(' ').map(str::to_string).collect();
+        if t[0] == "c20.ctor" {
+            assert!(t.len() == 6, "harness: malformed request {req}");
+            return block_on_timeout(60, run_ctor(t)).unwrap_or_else(|e| e);
+        }
         if t[0] == "c20.chain" {
             assert!(t.len() == 11, "harness: malformed request {req}");
             return block_on_timeout(30, run_chain(t)).unwrap_or_else(|e| e);
@@ -952,8 +1041,25 @@ pub mod c20_live {
         }
     }
 
+    /// the whole configuration matrix through the real constructors
+    fn ctor_cases(v: &mut Vec<String>) {
+        for server in ["mpc", "shard"] {
+            let (own, other) = if server == "mpc" { ("h", "s") } else { ("s", "h") };
+            let val = |f: &str, k: usize| if f == "h" { ["A", "B", "C"][k] } else { ["0", "1", "2"][k] };
+            // the configuration no launcher produces first: HTTPS requested, no key material
+            for (dh, tls) in [("0", "none"), ("1", "none"), ("0", "some"), ("1", "some")] {
+                for bind in ["pre", "self"] {
+                    for h in [format!("{own}={}", val(own, 1)), "none".to_string(), format!("{own}={BAD}"), format!("{other}={}", val(other, 1))] {
+                        v.push(format!("c20.ctor {server} {dh} {tls} {bind} {h}"));
+                    }
+                }
+            }
+        }
+    }
+
     pub fn generate(rng: &mut Rng, thorough: bool) -> Vec<String> {
         let mut v = Vec::new();
+        ctor_cases(&mut v);
         chain_cases(rng, thorough, &mut v);
         for (server, group, method, path, body) in requests() {
             let protected = group == "h2h" || group == "s2s";
